@@ -16,7 +16,7 @@
 (*     stores, del and the in-place operators mutate the object - visible through every      *)
 (*     reference.  The recorder's descriptors are structural snapshots: Reify expands the    *)
 (*     machine's references before anything is compared with the recording.  An object whose *)
-(*     content the machine cannot compute (x *= 2, s |= {..}) has content Opq.               *)
+(*     content the machine does not compute (s -= {..}, x[::2] = ..) has content Opq.        *)
 (* Event: [e, op, n, xs, names, r, x].                                                      *)
 (*                                                                                          *)
 (* st = [l (next event), ok, kind, why, want, fl, q, ni, exc]                               *)
